@@ -78,6 +78,7 @@ Binds(n) == LET d == ND(n) IN
     [] d.kind = "call" -> Range(d.tgt)
     [] d.kind = "with" /\ d.name # "" -> {d.name}
     [] d.kind = "def" -> {d.name}
+    [] d.kind = "try" -> {d.handlers[h].name : h \in 1..Len(d.handlers)} \ {""}     \* except E as name
     [] OTHER -> {}
 LocalsOf(f) ==
   (Range(FN(f).params) \cup UNION {Binds(n) : n \in {m \in 1..Len(P.nodes) : ND(m).fn = f}})
@@ -203,14 +204,20 @@ Prop(c, comp, lg, cl) ==
     [] f.k = "try" ->
         LET h == IF comp[1] = "exc" /\ comp[2][1] = "x" THEN HandlerFor(f.node, comp[2][2]) ELSE 0 IN
         IF h # 0
-        THEN R(Append(rest, Frame("handler", ND(f.node).handlers[h].body, f.node, f.env)), lg, cl, {})
+        THEN LET hd == ND(f.node).handlers[h]
+                 hc == IF hd.name = "" THEN 0 ELSE CellOf(envs, f.env, hd.name) IN
+             \* `except E as name` binds the exception to name for the duration of the handler
+             R(Append(rest, [Frame("handler", hd.body, f.node, f.env) EXCEPT !.tgt = IF hc = 0 THEN <<>> ELSE <<hd.name>>]),
+               lg, IF hc = 0 THEN cl ELSE SetCell(cl, hc, comp[2]), IF hc = 0 THEN {} ELSE {hc})
         ELSE IF HasFinally(f.node)
         THEN R(Append(rest, [Frame("finally", ND(f.node).final, f.node, f.env) EXCEPT !.comp = comp]), lg, cl, {})
         ELSE Prop(rest, comp, lg, cl)
-    [] f.k = "handler" ->
+    [] f.k = "handler" ->       \* leaving a handler in any way unbinds its `as` name (implicit `del name`)
+        LET hc  == IF f.tgt = <<>> THEN 0 ELSE CellOf(envs, f.env, f.tgt[1])
+            cl2 == IF hc = 0 THEN cl ELSE SetCell(cl, hc, Unbound) IN
         IF HasFinally(f.node)
-        THEN R(Append(rest, [Frame("finally", ND(f.node).final, f.node, f.env) EXCEPT !.comp = comp]), lg, cl, {})
-        ELSE Prop(rest, comp, lg, cl)
+        THEN R(Append(rest, [Frame("finally", ND(f.node).final, f.node, f.env) EXCEPT !.comp = comp]), lg, cl2, IF hc = 0 THEN {} ELSE {hc})
+        ELSE LET r == Prop(rest, comp, lg, cl2) IN [r EXCEPT !.wr = @ \cup (IF hc = 0 THEN {} ELSE {hc})]
     [] f.k = "with" -> Prop(rest, comp, Append(lg, <<"exit", ND(f.node).k, <<>>>>), cl)
     [] OTHER -> Prop(rest, comp, lg, cl)   \* blk, finally (a jump out of a finally block abandons its pending completion)
 
@@ -249,8 +256,16 @@ Finish ==
            ELSE LET c == CellOf(envs, f.env, ND(f.node).tgt[1]) IN
                 /\ ctrl' = Append(rest, [f EXCEPT !.i = 1, !.items = Tail(@)])
                 /\ cells' = SetCell(cells, c, Head(f.items)) /\ wr' = {c}
-    [] f.k \in {"try", "handler"} ->
+    [] f.k = "try" ->
         /\ cur' = 0 /\ Quiet
+        /\ IF HasFinally(f.node)
+           THEN ctrl' = Append(rest, Frame("finally", ND(f.node).final, f.node, f.env))
+           ELSE ctrl' = rest
+    [] f.k = "handler" ->
+        LET hc == IF f.tgt = <<>> THEN 0 ELSE CellOf(envs, f.env, f.tgt[1]) IN
+        /\ cur' = 0 /\ UNCHANGED <<envs, dec, log, status>> /\ how' = "" /\ rd' = {}
+        /\ cells' = IF hc = 0 THEN cells ELSE SetCell(cells, hc, Unbound)
+        /\ wr' = IF hc = 0 THEN {} ELSE {hc}
         /\ IF HasFinally(f.node)
            THEN ctrl' = Append(rest, Frame("finally", ND(f.node).final, f.node, f.env))
            ELSE ctrl' = rest
